@@ -216,6 +216,23 @@ pub fn hand(b: &mut Builder) {
     b.program("struct_escaped_rename", s.clone());
     b.program("vec_struct_escaped_rename", Desc::Vec(bx(s)));
 
+    // identifiers that dodge a keyword with a trailing underscore are keys like any other
+    let fields = vec![b.f("type_"), b.f("ref_"), b.f("in_"), b.f("size_"), b.f("match_")];
+    let s = b.strukt("HKeywordish", None, Deny::Default, Validate::No, fields.clone());
+    b.program("struct_keywordish", s.clone());
+    b.program("vec_struct_keywordish", Desc::Vec(bx(s)));
+    let s = b.strukt("HKeywordishLower", Some(RenameAll::Lower), Deny::No, Validate::No, fields);
+    b.program("struct_keywordish_lower", s);
+    let variants = vec![
+        VariantDef { ident: "Type_".into(), rename: None, rename_all: None, fields: Some(vec![b.f("as_"), b.f("plain")]) },
+        VariantDef { ident: "Loop_".into(), rename: None, rename_all: None, fields: None },
+    ];
+    let e = b.add_type(
+        "HKeywordishEnum",
+        TypeKind::Tagged { tag: "kind".into(), rename_all: None, deny: Deny::Default, validate: Validate::No, variants },
+    );
+    b.program("enum_keywordish", e);
+
     // raw identifiers: the field `r#type` is read from the key "type"
     let mut dflt = b.f("r#loop");
     dflt.default = Dflt::Trait;
